@@ -133,6 +133,7 @@ class Ctx:
         self.assert_counter = 0
         self.covered = True
         self.spec_mode = 0
+        self.bindings: List[Any] = []
         self.collector = None
         self.bound_patterns: List[Any] = []
         self.handling: List[Any] = []
@@ -234,6 +235,7 @@ class FunctionResult:
 
 class Engine:
     MAX_PATHS = 4000
+    FEAS_TIMEOUT_MS = 250
 
     def __init__(self, repo: Repo, reg: Registry):
         self.repo = repo
@@ -304,15 +306,13 @@ class Engine:
         return ["%s: %s" % kv for kv in sorted(libmodel.ASSUMED.items())]
 
     def feasible(self, ctx: Ctx, cond) -> bool:
+        """Path pruning only (an over-approximation is sound): quantifier-free part of the path condition."""
         self.stats["feasibility_checks"] += 1
         s = z3.Solver()
-        s.set("timeout", 1500)
-        for a in self.relevant_prelude(list(ctx.axioms) + list(ctx.pc) + [cond]):
-            s.add(a)
-        for a in ctx.axioms:
-            s.add(a)
+        s.set("timeout", self.FEAS_TIMEOUT_MS)
         for p in ctx.pc:
-            s.add(p)
+            if not has_quantifier(p):
+                s.add(p)
         s.add(cond)
         r = s.check()
         return r != z3.unsat
@@ -1750,6 +1750,30 @@ def symbols_of(t) -> frozenset:
     r = frozenset(out)
     _SYM_CACHE[key] = r
     _SYM_KEEP.append(t)  # keep the term alive so that its id is not reused
+    return r
+
+
+_Q_CACHE: Dict[int, bool] = {}
+
+
+def has_quantifier(t) -> bool:
+    key = t.get_id()
+    if key in _Q_CACHE:
+        return _Q_CACHE[key]
+    r = False
+    stack = [t]
+    seen = set()
+    while stack:
+        x = stack.pop()
+        if x.get_id() in seen:
+            continue
+        seen.add(x.get_id())
+        if z3.is_quantifier(x):
+            r = True
+            break
+        stack.extend(x.children())
+    _Q_CACHE[key] = r
+    _SYM_KEEP.append(t)
     return r
 
 
